@@ -64,6 +64,13 @@ theorem isReadyToReap_refines (s : St β) (other : Bool) (nOther : Int) (isB : I
       nOther (qIsResult s) isB (oi s.obj.bs) (oi s.obj.nb) (oi s.obj.rem) a b
       = .ok ((isReady s).2, objSt (isReady s).1.obj (calcProgress s).2.sown (calcProgress s).2.results) := by
   prog_cases s
+  -- a body that tests "no results" first (an early return / a guard) leaves an `if` on the list of results
+  all_goals (
+    split
+    · next h => subst h; simp
+    · next h =>
+      have hpos := List.length_pos_iff.mpr h
+      simp [hpos] <;> (first | rfl | (apply decide_eq_decide.mpr; omega)))
 
 /-- the properties `num_sown_batches` / `num_results` are the two counts of `Crop.calcProgress` -/
 theorem numSownBatches_refines (s : St β) (other : Bool) (nOther : Int) (isB : Int → Bool) (a b : Int) :
